@@ -397,6 +397,20 @@ func (b *Bitmap) Max() uint64 {
 	}
 
 	hb, c := b.Containers.Last()
+	if c.N() == 0 {
+		// The last container is empty (e.g. after removing its last bit), so
+		// find the last container which actually holds a bit.
+		hb, c = 0, nil
+		citer, _ := b.Containers.Iterator(0)
+		for citer.Next() {
+			if k, v := citer.Value(); v.N() > 0 {
+				hb, c = k, v
+			}
+		}
+		if c == nil {
+			return 0
+		}
+	}
 	lb := c.max()
 	return hb<<16 | uint64(lb)
 }
